@@ -1,24 +1,24 @@
 SPECIFICATION Spec
 CONSTANTS
-  Procs = {1}
+  Procs = {1, 2, 3}
   MaxRev = 6
-  MaxOps = 2
+  MaxOps = 1
   MaxFaults = 0
   MaxCrash = 0
   MaxEdits = 0
   FaultKinds = {}
-  Sequential = TRUE
+  Sequential = FALSE
   Planned = FALSE
   MaxPlan = 36
   InitStores <- StoresEmpty
   LogSched = FALSE
   KeepLog = TRUE
-  OpMenu <- XOwn
+  OpMenu <- MenuConc
   EditMenu <- EditsNone
-  PreMenu <- PreOwnX
+  PreMenu <- PreBy
   Objs <- AllObjs
   MenuGuard <- GuardTrue
 VIEW View
-INVARIANTS Inv_C07_Refusal
-PROPERTIES Act_C07_Stamped Act_C07_DeleteNamed
+INVARIANTS Inv_C09_LoserClean Inv_C09_DisjointRevisions Inv_C09_Quiescent Inv_C01_OneDeployed
+PROPERTIES Act_C09_CreateOnlyFresh Act_C01_NextRevision
 CHECK_DEADLOCK FALSE
